@@ -72,6 +72,7 @@ type lbEngine struct {
 	lostDumped  bool
 	recorded    map[string]bool
 	scanNeed    map[string]int64            // C14/R10: terminator -> bytes of the opener the search must have left behind
+	searchCalls map[*ssa.Function][]*ssa.Call
 	scanFns     map[string]bool             // functions whose loops are byte scans: checked for unit steps and exhaustive exits
 	progress    bool                        // C03/R7: every loop iteration advances the cursor or a counter
 	tiling      bool                        // C13/R4: track the Space/Raw/Pos/End stores of tokens and comments
@@ -1476,7 +1477,11 @@ func (e *lbEngine) refine(in *lbInst, st *lstate, cond ssa.Value, pol bool) *lst
 				return nil
 			}
 		}
-		return st.with(facts...)
+		ns := st.with(facts...)
+		if isIntType(x.X.Type()) {
+			ns = e.searchFound(in, e.searchFound(in, ns, x.X), x.Y)
+		}
+		return ns
 	case *ssa.Call, *ssa.Phi:
 		return e.activate(st, e.atom(cond), pol)
 	}
@@ -1554,6 +1559,11 @@ func (e *lbEngine) execBlock(in *lbInst, b *ssa.BasicBlock, st *lstate, rets *[]
 			if e.isPosAddr(in, x.Addr) {
 				l, ok := e.linear(in, x.Val)
 				pp := e.prime(e.P)
+				if ok {
+					e.require(in, st, x, "C13/R1", "the cursor only moves forward", []string{"new pos >= old pos"}, []lin{l.sub(linAtom(e.P))})
+				} else {
+					e.require(in, st, x, "C13/R1", "the cursor only moves forward", []string{"the new cursor is a linear term"}, []lin{linConst(-1)})
+				}
 				// facts that only improve when the cursor moves forward
 				var grow []lfact
 				if ok && st.proves(e.at, lfact{l: l.sub(linAtom(e.P))}) {
@@ -1677,13 +1687,74 @@ func (e *lbEngine) execBlock(in *lbInst, b *ssa.BasicBlock, st *lstate, rets *[]
 			if os.Getenv("VERIF_LB_IFDEBUG") != "" && in.fn.Name() == "skipComment" {
 				fmt.Printf("LB BEFORECALL %s b%d %s record=%v\n", in.fn.Name(), b.Index, x.Name(), e.record)
 			}
+			var searchLo atomID
+			var searchLoVal lin
+			if e.scanNeed != nil && e.scanFns[in.fn.Name()] {
+				// the terminator found by a library search (strings.Index(l.Buffer[l.pos:], end)) instead of a loop
+				if sc := x.Call.StaticCallee(); sc != nil && lbSearchFns[sc.String()] && len(x.Call.Args) == 2 {
+					if p, ok := x.Call.Args[1].(*ssa.Parameter); ok {
+						if term, ok := in.bindStr[p]; ok {
+							lo, hi, isBuf := e.bufSlice(in, x.Call.Args[0])
+							if !isBuf {
+								e.requireAt(st, in.fn, x, "C14/R8", funcName(in.fn)+": the library search for the terminator looks at the input from the cursor to its end", []string{"the text searched is a slice of the input"}, []lin{linConst(-1)})
+							} else {
+								need := e.scanNeed[term]
+								g := e.at.get("entryPos", "cursor at entry", false)
+								e.requireAt(st, in.fn, x, "C14/R10", fmt.Sprintf("%s: the search for %q starts behind the comment opener", funcName(in.fn), term),
+									[]string{fmt.Sprintf("start of the searched text - start of the comment >= %d", need)}, []lin{lo.sub(linAtom(g)).add(linConst(-need))})
+								e.requireAt(st, in.fn, x, "C14/R8", funcName(in.fn)+": the library search for the terminator looks at the input from the cursor to its end",
+									[]string{"searched text starts at the cursor (>=)", "searched text starts at the cursor (<=)", "searched text ends at the end of the input (>=)", "searched text ends at the end of the input (<=)"},
+									[]lin{lo.sub(linAtom(e.P)), linAtom(e.P).sub(lo), hi.sub(linAtom(e.N)), linAtom(e.N).sub(hi)})
+								searchLo = e.at.get(ghostFieldKey{x, "searchLo"}, e.valName(x)+".from", false)
+								searchLoVal = lo
+								if e.searchCalls == nil {
+									e.searchCalls = map[*ssa.Function][]*ssa.Call{}
+								}
+								dup := false
+								for _, c := range e.searchCalls[in.fn] {
+									if c == x {
+										dup = true
+									}
+								}
+								if !dup {
+									e.searchCalls[in.fn] = append(e.searchCalls[in.fn], x)
+								}
+							}
+						}
+					}
+				}
+			}
 			st = e.execCall(in, st, x)
+			if searchLo != 0 && st != nil {
+				// ghosts (no owner: they survive the result's last use): where the search started and what it answered
+				gr := e.at.get(ghostFieldKey{x, "searchRes"}, e.valName(x)+".answer", false)
+				st = st.eliminate(e.at, map[atomID]bool{searchLo: true, gr: true}).eq(linAtom(searchLo), searchLoVal).eq(linAtom(gr), linAtom(e.atom(x)))
+			}
 			if os.Getenv("VERIF_LB_IFDEBUG") == fmt.Sprintf("%s.b%d", in.fn.Name(), b.Index) {
 				fmt.Printf("LB AFTERCALL %s b%d %s: %s\n", in.fn.Name(), b.Index, x.Name(), e.at.showState(st))
 			}
 		case *ssa.Return:
 			if e.trace && e.record {
 				fmt.Printf("LB RET %s: %s\n", e.context(), e.at.showState(st))
+			}
+			if e.scanNeed != nil && e.record {
+				for _, c := range e.searchCalls[in.fn] {
+					from, ok := e.at.byKey[ghostFieldKey{c, "searchLo"}]
+					if !ok || !e.present(st, from) {
+						continue
+					}
+					res := linAtom(e.at.get(ghostFieldKey{c, "searchRes"}, e.valName(c)+".answer", false))
+					switch {
+					case st.proves(e.at, lfact{l: res}):
+						want := linAtom(from).add(res).add(e.lenLin(in, c.Call.Args[1]))
+						e.requireAt(st, in.fn, x, "C14/R8", funcName(in.fn)+": after a hit the cursor is right behind the first terminator", []string{"cursor >= start of the search + index + len(terminator)", "cursor <= start of the search + index + len(terminator)"},
+							[]lin{linAtom(e.P).sub(want), want.sub(linAtom(e.P))})
+					case st.proves(e.at, lfact{l: res.scale(-1).add(linConst(-1))}):
+						e.requireAt(st, in.fn, x, "C14/R8", funcName(in.fn)+": without a hit the comment runs to the end of the input", []string{"cursor >= len(Buffer)"}, []lin{linAtom(e.P).sub(linAtom(e.N))})
+					default:
+						e.requireAt(st, in.fn, x, "C14/R8", funcName(in.fn)+": the result of the library search is tested before the function returns", []string{"hit or miss is known on this return"}, []lin{linConst(-1)})
+					}
+				}
 			}
 			if e.tiling && e.record && len(e.frames) == 1 {
 				le := linAtom(e.at.get("lastEnd", "end of the last token/comment", false))
@@ -1893,6 +1964,11 @@ func (e *lbEngine) execCall(in *lbInst, st *lstate, call *ssa.Call) *lstate {
 		r := linAtom(e.atom(call))
 		return st.ge(r, linConst(-1)).ge(linConst(4), r)
 	}
+	if _, ok := lbSearchFns[full]; ok && len(com.Args) == 2 {
+		// -1 <= r <= len(s); on the found side (r >= 0, see refine) r + len(needle) <= len(s)
+		r := linAtom(e.atom(call))
+		return st.ge(r, linConst(-1)).ge(e.lenLin(in, com.Args[0]), r)
+	}
 	if e.split && callee.Name() == "NextToken" && callee.Signature.Recv() != nil && len(com.Args) == 1 && e.aliasOf(in, com.Args[0]) == "lexer" {
 		// contract of Lexer.NextToken on a nil error (C13/R1 + R4: the cursor moves only inside nextToken and is at
 		// the End last recorded on return; Space starts there; comments and token follow in order):
@@ -1952,6 +2028,39 @@ func (e *lbEngine) execCall(in *lbInst, st *lstate, call *ssa.Call) *lstate {
 		}
 	}
 	return e.inline(in, st, call, callee)
+}
+
+// lbSearchFns: standard-library searches whose result is -1 or an index at which the needle fits (value: the needle is
+// a string/slice whose whole length fits; false: one byte/rune of at least one byte).
+var lbSearchFns = map[string]bool{
+	"strings.Index": true, "strings.LastIndex": true, "bytes.Index": true, "bytes.LastIndex": true,
+	"strings.IndexByte": false, "strings.LastIndexByte": false, "bytes.IndexByte": false, "bytes.LastIndexByte": false,
+	"strings.IndexRune": false, "bytes.IndexRune": false, "strings.IndexAny": false, "strings.LastIndexAny": false, "bytes.IndexAny": false,
+}
+
+// searchFound: v is the result of a search call and is known to be >= 0 in st: the needle fits at that index.
+func (e *lbEngine) searchFound(in *lbInst, st *lstate, v ssa.Value) *lstate {
+	call, ok := v.(*ssa.Call)
+	if !ok || st == nil {
+		return st
+	}
+	callee := call.Call.StaticCallee()
+	if callee == nil || len(call.Call.Args) != 2 {
+		return st
+	}
+	whole, ok := lbSearchFns[callee.String()]
+	if !ok {
+		return st
+	}
+	r := linAtom(e.atom(call))
+	if !st.proves(e.at, lfact{l: r}) {
+		return st
+	}
+	need := linConst(1)
+	if whole {
+		need = e.lenLin(in, call.Call.Args[1])
+	}
+	return st.ge(e.lenLin(in, call.Call.Args[0]), r.add(need))
 }
 
 func (e *lbEngine) inScope(fn *ssa.Function) bool {
@@ -3284,6 +3393,41 @@ func (e *lbEngine) tokLenStore(in *lbInst, stp **lstate, x *ssa.Store) bool {
 // kindNotParam: a non-constant value stored into Token.Kind that cannot be "<param>": a one-byte string
 // (TokenKind([]byte{c})), or a key found in token.KeywordsMap (the store is dominated by the ok-edge of the lookup
 // with that key; the map holds the reserved words only, C14/R1).
+// keywordHitValue: v is the key of a `_, ok := KeywordsMap[v]` lookup of its function whose hit edge dominates the block.
+func keywordHitValue(v ssa.Value, at *ssa.BasicBlock) bool {
+	for _, b := range at.Parent().Blocks {
+		for _, in := range b.Instrs {
+			lk, ok := in.(*ssa.Lookup)
+			if !ok || !lk.CommaOk || lk.Index != v {
+				continue
+			}
+			ld, ok := lk.X.(*ssa.UnOp)
+			if !ok {
+				continue
+			}
+			g, ok := ld.X.(*ssa.Global)
+			if !ok || g.Name() != "KeywordsMap" {
+				continue
+			}
+			for _, u := range referrers(lk) {
+				ex, ok := u.(*ssa.Extract)
+				if !ok || ex.Index != 1 {
+					continue
+				}
+				for _, uu := range referrers(ex) {
+					if iff, ok := uu.(*ssa.If); ok {
+						yes := iff.Block().Succs[0]
+						if len(yes.Preds) == 1 && (yes == at || yes.Dominates(at)) {
+							return true
+						}
+					}
+				}
+			}
+		}
+	}
+	return false
+}
+
 func kindNotParam(st *ssa.Store) bool {
 	v := st.Val
 	for {
@@ -3304,32 +3448,34 @@ func kindNotParam(st *ssa.Store) bool {
 			}
 		}
 	}
-	for _, b := range st.Parent().Blocks {
-		for _, in := range b.Instrs {
-			lk, ok := in.(*ssa.Lookup)
-			if !ok || !lk.CommaOk || lk.Index != st.Val {
-				continue
-			}
-			ld, ok := lk.X.(*ssa.UnOp)
-			if !ok {
-				continue
-			}
-			g, ok := ld.X.(*ssa.Global)
-			if !ok || g.Name() != "KeywordsMap" {
-				continue
-			}
-			for _, u := range referrers(lk) {
-				ex, ok := u.(*ssa.Extract)
-				if !ok || ex.Index != 1 {
-					continue
-				}
-				for _, uu := range referrers(ex) {
-					if iff, ok := uu.(*ssa.If); ok {
-						yes := iff.Block().Succs[0]
-						if len(yes.Preds) == 1 && (yes == st.Block() || yes.Dominates(st.Block())) {
-							return true
-						}
+	if keywordHitValue(st.Val, st.Block()) {
+		return true
+	}
+	// the kind returned by a keyword classifier of the module (`k, ok := token.LookupKeyword(s)`): every value it returns
+	// is a constant other than <param> or the key of a KeywordsMap hit
+	if ex, ok := v.(*ssa.Extract); ok && ex.Index == 0 {
+		if call, ok := ex.Tuple.(*ssa.Call); ok {
+			if callee := call.Call.StaticCallee(); callee != nil && callee.Blocks != nil && corePkg(fnPkgPath(callee)) {
+				all, n := true, 0
+				for _, rb := range callee.Blocks {
+					ret, ok := rb.Instrs[len(rb.Instrs)-1].(*ssa.Return)
+					if !ok || len(ret.Results) == 0 {
+						continue
 					}
+					n++
+					r0 := ret.Results[0]
+					if c, isC := constString(r0); isC {
+						if c == "<param>" {
+							all = false
+						}
+						continue
+					}
+					if !keywordHitValue(r0, rb) {
+						all = false
+					}
+				}
+				if all && n > 0 {
+					return true
 				}
 			}
 		}
@@ -3735,6 +3881,11 @@ func ruleC14R8(w *World, r *Report) {
 					}
 				}
 			}
+		}
+	}
+	for _, c := range e.searchCalls[fn] {
+		if p, isP := c.Call.Args[1].(*ssa.Parameter); isP && p.Parent() == fn {
+			matched = true // a library search for `end` in the input (where it looks, and what is done with the answer, are obligations above)
 		}
 	}
 	if matched {
